@@ -153,6 +153,18 @@ CLAIMED = {
         "model tied by sampled correspondence.",
         "DESIGN.md §7 C01",
     ),
+    "C04": (
+        "Lean 4 proof that the dry-run renamer never changes the file system it reads, lifted to every run of the pipeline model (all strategies incl. override/manual) + audit-hook and lstat/ctime/content snapshot oracle over every tag of the live registry and generated scenarios",
+        "Proved in Lean for every tree, mode, strategy (override and every manual answer included), file list, plan, "
+        "order and answer sequence: the file system handed to a dry run is returned unchanged, and --dry-run selects the "
+        "dry-run renamer in every mode. Partial: file access inside third-party tag libraries cannot be modelled; it is "
+        "observed instead: every tag of the live registry (enumerated each run, ad-hoc/Eval excluded) runs with --dry-run "
+        "on a copy of the real sample files in all modes and template positions under a sys.addaudithook listener, "
+        "between two full snapshots (lstat incl. ctime_ns/inode/nlink, content hash, link targets), with the working "
+        "directory compared; the same oracle runs over generated trees/plans/strategies.",
+        "Trusted: Lean kernel; third-party libraries (observed); atime excluded from the comparison.",
+        "DESIGN.md §7 C04",
+    ),
 }
 
 NOT_YET = "check not built yet in this snapshot of /verif (work in progress, see DESIGN.md §7)"
